@@ -37,6 +37,38 @@ fn data_catalog() -> Vec<DataDef> {
     v
 }
 
+/// the same shape with its immediate constant at the boundaries of its class (0, the largest
+/// unsigned value, the sign bit, -1, the most negative value); the assembler may refuse some of them,
+/// but whatever it accepts must run
+fn imm_variants(i: &Instr) -> Vec<Instr> {
+    let vals = |w: Option<W>| -> Vec<i32> {
+        match w {
+            Some(W::B) => vec![0, 0x7F, 0x80, 0xFF, -1, -128],
+            _ => vec![0, 0x7FFF, 0x8000, 0xFFFF, -1, -32768],
+        }
+    };
+    let mut out = Vec::new();
+    match i {
+        Instr::Mov(a, Opnd::Imm(_)) => {
+            for v in vals(a.width()) {
+                out.push(Instr::Mov(a.clone(), Opnd::Imm(v)));
+            }
+        }
+        Instr::Bin(op, a, Opnd::Imm(_)) => {
+            for v in vals(a.width()) {
+                out.push(Instr::Bin(*op, a.clone(), Opnd::Imm(v)));
+            }
+        }
+        Instr::Shift(op, a, Count::Imm(_)) => {
+            for v in [0u8, 1, 7, 8, 15, 16, 17, 31, 32, 127, 128, 255] {
+                out.push(Instr::Shift(*op, a.clone(), Count::Imm(v)));
+            }
+        }
+        _ => {}
+    }
+    out
+}
+
 pub fn run(tier: &Tier) -> i32 {
     let rep_o = Reporter::new("C10", tier.name());
     let c_o = Counters::default();
@@ -45,8 +77,12 @@ pub fn run(tier: &Tier) -> i32 {
     let cat = catalog(&CatOpts { disps: if tier.thorough { vec![2, -2, 0x7FFF, -0x8000, 0xFFFF] } else { vec![2, -3] }, all_regs: tier.thorough });
     let accepted = AtomicU64::new(0);
     let lines_checked = AtomicU64::new(0);
-    let work: Vec<(&Instr, bool)> = cat.iter().flat_map(|i| [(i, false), (i, true)]).collect();
-    work.par_iter().for_each(|(i, upper)| {
+    let variants: Vec<Instr> = cat.iter().flat_map(|i| imm_variants(i)).collect();
+    let n_variants = variants.len();
+    // (instruction, upper case, documented shape: a rejection by the assembler is reported)
+    let mut work: Vec<(&Instr, bool, bool)> = cat.iter().flat_map(|i| [(i, false, true), (i, true, true)]).collect();
+    work.extend(variants.iter().map(|i| (i, false, false)));
+    work.par_iter().for_each(|(i, upper, documented)| {
         with_worker(|wk| {
             let prog = std_program(i);
             let src = if *upper { render_upper(&prog) } else { render(&prog) };
@@ -55,6 +91,10 @@ pub fn run(tier: &Tier) -> i32 {
             let asm = match assemble(&src) {
                 Ok(a) => a,
                 Err(e) => {
+                    if !*documented {
+                        c.outcome("boundary constant refused by the assembler");
+                        return;
+                    }
                     rep.report(Viol {
                         site,
                         field: "doc-shape-rejected".into(),
@@ -220,11 +260,52 @@ pub fn run(tier: &Tier) -> i32 {
         }
         c.sample(json!({"cli_print_program": src}));
     });
+    // print statements with constants at the edges of the memory space, one per program (the assembler
+    // may refuse them; whatever it accepts must print)
+    let mut edge: Vec<String> = Vec::new();
+    for (a, b) in [(0u32, 0xFFFFFu32), (0xFFFFF, 0xFFFFF), (0xFFFFE, 0xFFFFF), (0, 0x100000), (0x100000, 0x100000), (0xFFFFF, 0x100000)] {
+        edge.push(format!("print mem {} -> {}", a, b));
+        edge.push(format!("print mem 0x{:x} -> 0x{:x}", a, b));
+    }
+    for (a, n) in [(0u32, 0xFFFFFu32), (0xFFFFF, 0), (0xFFFF0, 15), (0xFFFF0, 16), (0xFFFFF, 1), (1, 0xFFFFF), (0x80000, 0x80000), (0, 0x100000), (0x100000, 0)] {
+        edge.push(format!("print mem {} : {}", a, n));
+        edge.push(format!("print mem 0x{:X}:0b{:b}", a, n));
+    }
+    for n in [0u32, 0xFFFF, 0x10000, 0xFFFFF, 0x100000] {
+        edge.push(format!("print mem : {}", n));
+        edge.push(format!("PRINT MEM :0X{:X}", n));
+    }
+    edge.par_iter().for_each(|line| {
+        let src = format!("bv: db 7\nstart:\nstc\n{}\nprint flags\n", line);
+        // printing the whole megabyte takes about 4 MB of output
+        let mut opts = CliOpts::default();
+        opts.cap = 16 << 20;
+        opts.timeout_ms = 20_000;
+        let o = run_cli(&src, "", &opts);
+        c.add_exec(1);
+        let out = o.out();
+        let refused = !out.contains("Output of line");
+        // accepted: both prints must be answered; refused: a diagnostic and nothing executed
+        let ok = o.abnormal().is_none() && !out.contains("Internal Error") && (refused || sections(&out).1.len() == 2);
+        c.outcome(if refused { "edge print refused by the assembler" } else { "edge print runs" });
+        if !ok {
+            rep.report(Viol {
+                site: "print forms".into(),
+                field: "printer-rejects".into(),
+                vars: vec![],
+                got_val: None,
+                expected: "a print statement the assembler accepts is printed (no 'Internal Error'), and the program continues".into(),
+                got: format!("{:?}: {}", line, o.summary()),
+                case: json!({"src": src, "stdin": ""}),
+                weight: 1,
+            });
+        }
+    });
     c.states.fetch_add(accepted.load(Ordering::Relaxed), Ordering::Relaxed);
     let mut cov = Coverage::default();
     cov.exhaustive = true;
-    cov.rule = "the complete shape catalog transcribed from syntax.md (every mnemonic and synonym x every operand form x 17 address forms x 5 segment choices x register choices) in lower and upper case, each as a minimal program: if the real Preprocessor accepts it, every emitted data line goes to the real DataParser and every emitted code line to the real Interpreter (context of the same program, executable state: caller on the call stack, non-zero divisors); any Err downstream is the violation; a documented shape the assembler rejects is reported as doc-shape-rejected. All data directive forms in both cases; all print forms x 4 radices x both cases through the CLI binary (no 'Internal Error', one output section per print)".into();
-    cov.bounds = json!({"catalog_shapes": cat.len(), "cases": 2, "data_forms": dcat.len(), "print_programs": print_srcs.len(), "accepted_programs": accepted.load(Ordering::Relaxed), "downstream_lines_checked": lines_checked.load(Ordering::Relaxed), "tier": tier.name()});
+    cov.rule = "the complete shape catalog transcribed from syntax.md (every mnemonic and synonym x every operand form x 17 address forms x 5 segment choices x register choices) in lower and upper case, each as a minimal program: if the real Preprocessor accepts it, every emitted data line goes to the real DataParser and every emitted code line to the real Interpreter (context of the same program, executable state: caller on the call stack, non-zero divisors); any Err downstream is the violation; a documented shape the assembler rejects is reported as doc-shape-rejected. Every shape with an immediate constant or shift count is repeated with the constant at the boundaries of its class (0, largest unsigned, sign bit, -1, most negative; counts 0..255 lattice): the assembler may refuse, but what it accepts must run. All data directive forms in both cases; print statements with constants at the edges of the memory space, one per program; all print forms x 4 radices x both cases through the CLI binary (no 'Internal Error', one output section per print)".into();
+    cov.bounds = json!({"catalog_shapes": cat.len(), "cases": 2, "data_forms": dcat.len(), "print_programs": print_srcs.len(), "print_edge_programs": edge.len(), "immediate_boundary_variants": n_variants, "accepted_programs": accepted.load(Ordering::Relaxed), "downstream_lines_checked": lines_checked.load(Ordering::Relaxed), "tier": tier.name()});
     cov.assumptions = common_assumptions();
     cov.cli_runs = CLI_RUNS.load(Ordering::Relaxed);
     cov.distinct_nontrivial = accepted.load(Ordering::Relaxed);
